@@ -21,3 +21,8 @@ Proof. vm_compute. split; reflexivity. Qed.
 (** No invocation leaves the dealer's table with its call-timeout timer running. *)
 Lemma invocation_drops_cancel_timer_holds : invocation_drops_cancel_timer gen_invocation_drops = true.
 Proof. vm_compute. reflexivity. Qed.
+
+(** Closing a network peer never waits for a client that stopped reading. *)
+Lemma peer_close_bounds_pending_write_holds :
+  peer_close_bounds_pending_write gen_peer_close_bounds_write = true.
+Proof. vm_compute. reflexivity. Qed.
